@@ -3,7 +3,8 @@ package grpctarget
 import (
 	"context"
 	"io"
-	"sync/atomic"
+	"strings"
+	"sync"
 
 	grpcscn "github.com/yandex/pandora/components/guns/grpc/scenario"
 	httpscn "github.com/yandex/pandora/components/guns/http_scenario"
@@ -17,15 +18,22 @@ import (
 // every product gets an identity, and NewGun / Bind (with the InstanceID the engine passes) /
 // begin and end of Shoot (with goroutine id and a projection of the ammo) are recorded.
 func WrapGunFactory(rec *Rec, orig func() (core.Gun, error)) func() (core.Gun, error) {
-	var n int32
+	var mu sync.Mutex
+	ids := map[core.Gun]int{} // identity of the gun OBJECT the factory returned (guns are pointers)
 	return func() (core.Gun, error) {
 		g, err := orig()
 		if err != nil || g == nil {
 			rec.Emit(E{"ev": "NewGunFailed"})
 			return g, err
 		}
-		id := int(atomic.AddInt32(&n, 1))
-		rec.Emit(E{"ev": "NewGun", "gun": id})
+		mu.Lock()
+		id, seen := ids[g]
+		if !seen {
+			id = len(ids) + 1
+			ids[g] = id
+		}
+		mu.Unlock()
+		rec.Emit(E{"ev": "NewGun", "gun": id, "gid": Goid()})
 		return &RecGun{inner: g, id: id, rec: rec}, nil
 	}
 }
@@ -38,7 +46,7 @@ type RecGun struct {
 
 func (g *RecGun) Bind(a core.Aggregator, deps core.GunDeps) error {
 	err := g.inner.Bind(a, deps)
-	e := E{"ev": "Bind", "gun": g.id, "inst": deps.InstanceID, "ok": err == nil}
+	e := E{"ev": "Bind", "gun": g.id, "inst": deps.InstanceID, "ok": err == nil, "gid": Goid()}
 	g.rec.Emit(e)
 	return err
 }
@@ -52,13 +60,20 @@ func AmmoName(a core.Ammo) string {
 		return x.Name
 	case *httpscn.Scenario:
 		return x.Name
+	case interface{ Tag() string }: // decoded HTTP ammo (uri, http/json, ...)
+		return x.Tag()
 	}
 	return ""
 }
 
 func (g *RecGun) Shoot(a core.Ammo) {
 	gid := Goid()
-	g.rec.Emit(E{"ev": "ShootBegin", "gun": g.id, "gid": gid, "ammo": AmmoName(a)})
+	name := AmmoName(a)
+	tok := "" // the token the ammo itself carries ("<name>~<token>"); "" = drawn by the scenario
+	if strings.Contains(name, "~") {
+		_, tok = SplitTok(name)
+	}
+	g.rec.Emit(E{"ev": "ShootBegin", "gun": g.id, "gid": gid, "ammo": name, "tok": tok})
 	defer g.rec.Emit(E{"ev": "ShootEnd", "gun": g.id, "gid": gid})
 	g.inner.Shoot(a)
 }
